@@ -473,7 +473,8 @@ func genHs(g *genCtx) {
 					mutate(which, func(p []byte) []byte { return p[:l] }, false)
 				}
 			}
-			for k := 1; k <= 3; k++ { // extension
+			// extension: a few bytes, and tails longer than any digest (a code / check value of a length the BMC chooses)
+			for _, k := range []int{1, 2, 3, 4, 8, 12, 13, 20, 21, 32, 33, 64, 200, 400} {
 				k := k
 				mutate(which, func(p []byte) []byte { return append(p, rb(k)...) }, true)
 			}
